@@ -9,22 +9,29 @@ requested number of generations […] and no age-update or exit message is left 
 the next call."
 
 The statements are about `Model/ParArch.lean` (`step`, one transition per communication operation of
-`_non_blocking_execution_main` / `_non_blocking_execution_helper`); the model is tied to the Python
-code by trace validation (`bvdriver` op `partrace`, `harness/c12_run.py`).  They hold for every number
-of ranks `R ≥ 1`, every `sync_frequency`, every requested number of generations, every observed slice
-length (`Action.evolve r k`, any `k`) and every interleaving (`Reachable` allows any enabled action).
+`_non_blocking_execution_main` / `_non_blocking_execution_helper`, with the repair of finding F10: rank 0
+first collects one age of every helper by blocking receives and computes
+`target_total_age = sum(total_age.values()) + num_steps * comm_size` from the island ages); the model is
+tied to the Python code by trace validation (`bvdriver` op `partrace`, `harness/c12_run.py`).  They hold
+for every number of ranks `R ≥ 1`, every `sync_frequency`, every requested number of generations, all
+initial island ages, every observed slice length (`Action.evolve r k`, any `k`) and every interleaving
+(`Reachable` allows any enabled action).  There is no precondition on the call.
 
-* `no_deadlock`       -- in every reachable state either all ranks have returned or some rank can move;
+* `no_deadlock`       -- in every reachable state either all ranks have returned or some rank can move
+                         (in particular the blocking receives of the collecting loop are always served);
 * `clean_return`      -- in a reachable state where all ranks have returned, rank 0's AGE_UPDATE mailbox
                          is empty and no EXIT_NOTIFICATION is waiting at any helper;
-* `ages_nonblocking`  -- at return `R * (arch_age + n) ≤ Σ island ages` (the cumulative reading; the
-                         per-call reading fails on later calls, known finding F10);
-* `next_call`         -- the final state of a call satisfies the precondition of the next call, so the
-                         three statements hold for any sequence of calls.
+* `ages_advance`      -- at return `Σ (island ages at the start of the call) + R * n ≤ Σ island ages`: the
+                         mean island age has advanced by at least the requested `n` generations in THIS
+                         call (the per-call reading, which failed on later calls before the repair);
+* `goal_reached`      -- at return `target_total_age ≤ Σ island ages`;
+* `two_calls`         -- the final state of a call has empty mailboxes, so the next call starts from
+                         `initial R sync' n' s.ages` and all statements apply again; after two calls the
+                         ages have advanced by `R * (n₁ + n₂)`.
 
-Not proved here: termination (it needs the fairness + speed assumption; the harness shows the livelock
-when the assumption is dropped), and the blocking mode (no messages at all between the migration and
-the collectives).
+Not proved here: termination (it needs the fairness + speed assumption, `Props/C12Live.lean`; the harness
+shows the livelock when the assumption is dropped), and the blocking mode (no messages at all between
+the migration and the collectives).
 -/
 namespace Bingo
 namespace C12
@@ -53,11 +60,19 @@ theorem mem_range_any {R : Nat} {f : Nat → Bool} {r : Nat} (hr : r < R) (hf : 
     (List.range R).any f = true := by
   rw [List.any_eq_true]; exact ⟨r, List.mem_range.mpr hr, hf⟩
 
-/-- rank 0 can move unless it waits in the barrier or has returned -/
-theorem enabled0 {s : State} (inv : Inv s) (h : s.pc0 ≠ .done) (hb : s.pc0 = .inBarrier → allArrived s = true) :
+/-- rank 0 can move unless it waits in the barrier, waits in a collecting receive, or has returned -/
+theorem enabled0 {s : State} (inv : Inv s) (h : s.pc0 ≠ .done) (hb : s.pc0 = .inBarrier → allArrived s = true)
+    (hc : ∀ k, s.pc0 = .collecting k → (takeFrom k s.mbox).isSome = true) :
     enabled s 0 = true := by
   have hR := inv.Rpos
   cases hpc : s.pc0 with
+  | collecting k =>
+    have hp := hc k hpc
+    obtain ⟨_, hk⟩ := inv.collK k hpc
+    refine enabled_of (a := .recv 0 k tagAge) (by simp [nextAction, hpc, hp]) ?_
+    cases ht : takeFrom k s.mbox with
+    | none => simp [ht] at hp
+    | some p => simp [step, Action.rank, step0, hpc, ht]
   | evolving =>
     refine enabled_of (a := .evolve 0 s.sync) (by simp [nextAction, hpc]) ?_
     simp [step, Action.rank, step0, hpc]
@@ -95,6 +110,11 @@ theorem enabled0 {s : State} (inv : Inv s) (h : s.pc0 ≠ .done) (hb : s.pc0 = .
       | none => simp [ht] at hp
       | some p => simp [step, Action.rank, step0, hpc, ht]
   | done => exact absurd hpc h
+
+/-- rank 0 can move when it is neither collecting, nor in the barrier, nor done -/
+theorem enabled0_nc {s : State} (inv : Inv s) (h : s.pc0 ≠ .done) (hb : s.pc0 ≠ .inBarrier)
+    (hc : isCollecting s.pc0 = false) : enabled s 0 = true :=
+  enabled0 inv h (fun e => absurd e hb) (fun k e => absurd e (not_collecting hc k))
 
 /-- a helper can move unless it waits in the barrier or has returned -/
 theorem enabledH {s : State} (inv : Inv s) {r : Nat} (h0 : 0 < r) (hR : r < s.R) (h : pcOf s r ≠ .done)
@@ -168,11 +188,24 @@ theorem noDeadlock_of_inv {s : State} (inv : Inv s) : noDeadlock s = true := by
         refine mem_range_any hr (enabledH inv h0 hr ?_ ?_)
         · intro e; rw [e] at hnar; cases hnar
         · intro e; rw [e] at hnar; cases hnar
-      · refine mem_range_any inv.Rpos (enabled0 inv hd ?_)
-        intro e
-        cases ha : allArrived s with
-        | true => rfl
-        | false => exact absurd ⟨e, ha⟩ hb
+      · by_cases hc : ∃ k, s.pc0 = .collecting k ∧ (takeFrom k s.mbox).isSome = false
+        · -- rank 0 waits in a collecting receive: that helper has not yet sent its first age
+          obtain ⟨k, hk, hno⟩ := hc
+          obtain ⟨hk0, hkR⟩ := inv.collK k hk
+          have hsf : pcOf s k = .sendFirst := by
+            rcases inv.collWait k hk k (Nat.le_refl _) hkR with h1 | h1
+            · exact h1
+            · rw [hno] at h1; cases h1
+          refine mem_range_any hkR (enabledH inv hk0 hkR ?_ ?_) <;> (rw [hsf]; intro e; cases e)
+        · refine mem_range_any inv.Rpos (enabled0 inv hd ?_ ?_)
+          · intro e
+            cases ha : allArrived s with
+            | true => rfl
+            | false => exact absurd ⟨e, ha⟩ hb
+          · intro k hk
+            cases ht : (takeFrom k s.mbox).isSome with
+            | true => rfl
+            | false => exact absurd ⟨k, hk, ht⟩ hc
 
 /-- **clean return**: when every rank has returned, no AGE_UPDATE and no EXIT_NOTIFICATION is pending -/
 theorem cleanReturn_of_inv {s : State} (inv : Inv s) : cleanReturn s = true := by
@@ -199,12 +232,28 @@ theorem cleanReturn_of_inv {s : State} (inv : Inv s) : cleanReturn s = true := b
       simp [postLoopH, exitSent] at this
       simp [List.getD_eq_getElem?_getD, this]
 
-/-- **ages**: once rank 0 has left its loop (in particular at return) `R * target ≤ Σ island ages` -/
+/-- **ages**: once rank 0 has left its loop (in particular at return) `target_total_age ≤ Σ island ages` -/
 theorem agesOk_of_inv {s : State} (inv : Inv s) : agesOk s = true := by
   unfold agesOk
   cases hp : pastLoop s with
   | false => rfl
   | true => simpa using inv.loop hp
+
+theorem pastLoop_not_collecting {s : State} (hp : pastLoop s = true) : isCollecting s.pc0 = false := by
+  unfold pastLoop at hp
+  cases hpc : s.pc0 <;> rw [hpc] at hp <;> first | rfl | cases hp
+
+/-- **advance** (the repaired property): once rank 0 has left its loop (in particular at return) the sum
+of the island ages exceeds the sum at the start of the call by at least `R * numSteps` -/
+theorem advance_of_inv {s : State} (inv : Inv s) (hp : pastLoop s = true) :
+    s.ages0.sum + s.R * s.numSteps ≤ s.ages.sum :=
+  Nat.le_trans (inv.goalLo (pastLoop_not_collecting hp)) (inv.loop hp)
+
+theorem advanceOk_of_inv {s : State} (inv : Inv s) : advanceOk s = true := by
+  unfold advanceOk
+  cases hp : pastLoop s with
+  | false => rfl
+  | true => simpa using advance_of_inv inv hp
 
 /-- what rank 0 knows and what is in flight never exceeds the true island ages -/
 theorem tableSound_of_inv {s : State} (inv : Inv s) : tableSound s = true := by
@@ -213,23 +262,23 @@ theorem tableSound_of_inv {s : State} (inv : Inv s) : tableSound s = true := by
   exact ⟨fun r hr => inv.tab r hr, fun m hm => inv.box m hm⟩
 
 
-/-! ## Statements on reachable states of a call -/
+/-! ## Statements on reachable states of a call (no precondition besides `0 < R`) -/
 
-/-- precondition of a call: either generations are requested (`archAge < target`) or the islands are
-already at least as old as the archipelago says (true after any earlier call, see `next_call`) -/
-def CallPre (R target archAge : Nat) (ages : List Nat) : Prop :=
-  archAge < target ∨ R * target ≤ ((List.range R).map fun r => ages.getD r 0).sum
+theorem initial_frame (R sync n : Nat) (ages : List Nat) :
+    (initial R sync n ages).R = R ∧ (initial R sync n ages).sync = sync ∧ (initial R sync n ages).numSteps = n ∧
+    (initial R sync n ages).ages0 = ((List.range R).map fun r => ages.getD r 0) ∧
+    (initial R sync n ages).ages = ((List.range R).map fun r => ages.getD r 0) := by
+  unfold initial
+  split <;> exact ⟨rfl, rfl, rfl, rfl, rfl⟩
 
-theorem no_deadlock {R sync target archAge : Nat} {ages : List Nat} (hR : 0 < R)
-    (hpre : CallPre R target archAge ages) {s : State}
-    (h : Reachable (initial R sync target ages archAge) s) : noDeadlock s = true :=
-  noDeadlock_of_inv (inv_reachable (inv_initial R sync target ages archAge hR hpre) h)
+theorem no_deadlock {R sync n : Nat} {ages : List Nat} (hR : 0 < R) {s : State}
+    (h : Reachable (initial R sync n ages) s) : noDeadlock s = true :=
+  noDeadlock_of_inv (inv_reachable (inv_initial R sync n ages hR) h)
 
-theorem clean_return {R sync target archAge : Nat} {ages : List Nat} (hR : 0 < R)
-    (hpre : CallPre R target archAge ages) {s : State}
-    (h : Reachable (initial R sync target ages archAge) s) (hf : isFinal s = true) :
+theorem clean_return {R sync n : Nat} {ages : List Nat} (hR : 0 < R) {s : State}
+    (h : Reachable (initial R sync n ages) s) (hf : isFinal s = true) :
     s.mbox = [] ∧ ∀ r, s.exitQ.getD r 0 = 0 := by
-  have inv := inv_reachable (inv_initial R sync target ages archAge hR hpre) h
+  have inv := inv_reachable (inv_initial R sync n ages hR) h
   have hc := cleanReturn_of_inv inv
   simp only [cleanReturn, hf, Bool.not_true, Bool.false_or, Bool.and_eq_true, List.all_eq_true] at hc
   refine ⟨by simpa using hc.1, fun r => ?_⟩
@@ -240,25 +289,42 @@ theorem clean_return {R sync target archAge : Nat} {ages : List Nat} (hR : 0 < R
   · have : s.exitQ[r]? = none := by simp; omega
     simp [List.getD_eq_getElem?_getD, this]
 
-theorem ages_nonblocking {R sync target archAge : Nat} {ages : List Nat} (hR : 0 < R)
-    (hpre : CallPre R target archAge ages) {s : State}
-    (h : Reachable (initial R sync target ages archAge) s) (hf : isFinal s = true) :
-    R * target ≤ s.ages.sum := by
-  have inv := inv_reachable (inv_initial R sync target ages archAge hR hpre) h
-  obtain ⟨e1, _, e3⟩ := reachable_frame h
+theorem final_pastLoop {s : State} (hf : isFinal s = true) : pastLoop s = true := by
   have hd : s.pc0 = .done := by
     simp only [isFinal, Bool.and_eq_true, beq_iff_eq] at hf; exact hf.1
-  have := inv.loop (by simp [pastLoop, hd])
-  rw [e1, e3] at this
+  simp [pastLoop, hd]
+
+/-- **the mean island age advances by at least the requested number of generations**: when the call
+has returned on every rank, `Σ (ages at the start of the call) + R * n ≤ Σ ages` -/
+theorem ages_advance {R sync n : Nat} {ages : List Nat} (hR : 0 < R) {s : State}
+    (h : Reachable (initial R sync n ages) s) (hf : isFinal s = true) :
+    ((List.range R).map fun r => ages.getD r 0).sum + R * n ≤ s.ages.sum := by
+  have inv := inv_reachable (inv_initial R sync n ages hR) h
+  obtain ⟨e1, _, e3, e4⟩ := reachable_frame h
+  obtain ⟨i1, _, i3, i4, _⟩ := initial_frame R sync n ages
+  have := advance_of_inv inv (final_pastLoop hf)
+  rw [e1, e3, e4, i1, i3, i4] at this
   exact this
 
+/-- at return the sum of the island ages has reached `target_total_age` -/
+theorem goal_reached {R sync n : Nat} {ages : List Nat} (hR : 0 < R) {s : State}
+    (h : Reachable (initial R sync n ages) s) (hf : isFinal s = true) :
+    s.goal ≤ s.ages.sum ∧ ((List.range R).map fun r => ages.getD r 0).sum + R * n ≤ s.goal := by
+  have inv := inv_reachable (inv_initial R sync n ages hR) h
+  obtain ⟨e1, _, e3, e4⟩ := reachable_frame h
+  obtain ⟨i1, _, i3, i4, _⟩ := initial_frame R sync n ages
+  have hp := final_pastLoop hf
+  have := inv.goalLo (pastLoop_not_collecting hp)
+  rw [e1, e3, e4, i1, i3, i4] at this
+  exact ⟨inv.loop hp, this⟩
+
 /-- every state on the way satisfies all executable invariants that `partrace` checks -/
-theorem invariants_hold {R sync target archAge : Nat} {ages : List Nat} (hR : 0 < R)
-    (hpre : CallPre R target archAge ages) {s : State}
-    (h : Reachable (initial R sync target ages archAge) s) :
-    noDeadlock s = true ∧ cleanReturn s = true ∧ agesOk s = true ∧ tableSound s = true := by
-  have inv := inv_reachable (inv_initial R sync target ages archAge hR hpre) h
-  exact ⟨noDeadlock_of_inv inv, cleanReturn_of_inv inv, agesOk_of_inv inv, tableSound_of_inv inv⟩
+theorem invariants_hold {R sync n : Nat} {ages : List Nat} (hR : 0 < R) {s : State}
+    (h : Reachable (initial R sync n ages) s) :
+    noDeadlock s = true ∧ cleanReturn s = true ∧ agesOk s = true ∧ advanceOk s = true ∧ tableSound s = true := by
+  have inv := inv_reachable (inv_initial R sync n ages hR) h
+  exact ⟨noDeadlock_of_inv inv, cleanReturn_of_inv inv, agesOk_of_inv inv, advanceOk_of_inv inv,
+    tableSound_of_inv inv⟩
 
 theorem map_getD_range : ∀ (l : List Nat), (List.range l.length).map (fun r => l.getD r 0) = l := by
   intro l
@@ -268,26 +334,35 @@ theorem map_getD_range : ∀ (l : List Nat), (List.range l.length).map (fun r =>
     simp [List.getD_eq_getElem?_getD] at h1 ⊢
     simp [h1]
 
-/-- **repeated calls**: when a call has returned on all ranks, the next call (archipelago age = the old
-target, any number `n` of further generations, any new `sync`) starts in a state satisfying the
-precondition again -- with the islands' ages as they are now. -/
-theorem next_call {R sync target archAge : Nat} {ages : List Nat} (hR : 0 < R)
-    (hpre : CallPre R target archAge ages) {s : State}
-    (h : Reachable (initial R sync target ages archAge) s) (hf : isFinal s = true) (n : Nat) :
-    CallPre R (target + n) target s.ages := by
-  have inv := inv_reachable (inv_initial R sync target ages archAge hR hpre) h
-  obtain ⟨e1, _, _⟩ := reachable_frame h
-  have e1 : s.R = R := e1
-  by_cases hn : 0 < n
-  · exact Or.inl (by omega)
-  · have hn : n = 0 := by omega
-    subst hn
-    refine Or.inr ?_
-    have hlen : s.ages.length = R := by rw [inv.lenAges, e1]
-    have := map_getD_range s.ages
-    rw [hlen] at this
-    rw [this]
-    exact ages_nonblocking hR hpre h hf
+/-- the island ages a call starts with are the ages the previous call ended with -/
+theorem final_ages {R sync n : Nat} {ages : List Nat} (hR : 0 < R) {s : State}
+    (h : Reachable (initial R sync n ages) s) :
+    ((List.range R).map fun r => s.ages.getD r 0) = s.ages := by
+  have inv := inv_reachable (inv_initial R sync n ages hR) h
+  have e1 : s.R = R := (reachable_frame h).1.trans (initial_frame R sync n ages).1
+  have hlen : s.ages.length = R := by rw [inv.lenAges, e1]
+  have := map_getD_range s.ages
+  rw [hlen] at this
+  exact this
+
+/-- **repeated calls**.  The repaired code has no precondition: when a call has returned on all ranks
+its mailboxes and exit queues are empty (`clean_return`), so the next call (any `sync'`, any `n'`) starts in
+`initial R sync' n' s.ages`, from which `no_deadlock`, `clean_return`, `ages_advance`, … apply again.  For
+two consecutive calls requesting `n₁` and `n₂` generations the island ages at the end of the second call
+exceed the ages at the start of the first by at least `R * (n₁ + n₂)` in total. -/
+theorem two_calls {R sync₁ sync₂ n₁ n₂ : Nat} {ages : List Nat} (hR : 0 < R) {s₁ s₂ : State}
+    (h₁ : Reachable (initial R sync₁ n₁ ages) s₁) (hf₁ : isFinal s₁ = true)
+    (h₂ : Reachable (initial R sync₂ n₂ s₁.ages) s₂) (hf₂ : isFinal s₂ = true) :
+    (s₁.mbox = [] ∧ ∀ r, s₁.exitQ.getD r 0 = 0) ∧
+    (initial R sync₂ n₂ s₁.ages).ages = s₁.ages ∧
+    ((List.range R).map fun r => ages.getD r 0).sum + R * (n₁ + n₂) ≤ s₂.ages.sum := by
+  have a1 := ages_advance hR h₁ hf₁
+  have a2 := ages_advance hR h₂ hf₂
+  have e := final_ages hR h₁
+  rw [e] at a2
+  refine ⟨clean_return hR h₁ hf₁, ?_, ?_⟩
+  · rw [(initial_frame R sync₂ n₂ s₁.ages).2.2.2.2, e]
+  · rw [Nat.mul_add]; omega
 
 /-! ## C11, parallel clause: the partner relation of `_get_migration_partner` -/
 
@@ -304,20 +379,43 @@ theorem par_partner_none {order : List Nat} {a i : Nat} (hf : order.findIdx? (·
 
 /-! ## non-vacuity: concrete runs of the model -/
 
-/-- two ranks, `sync = 1`, one generation requested: a complete run ending in a clean final state -/
+/-- two ranks, `sync = 1`, one generation requested: a complete run (through the collecting receive)
+ending in a clean final state -/
 example :
     let s0 := initial 2 1 1 [0, 0]
-    let run := [Action.isend 1 0 tagAge, .iprobe 1 (some 0) tagExit none, .evolve 1 1, .evolve 0 1,
-      .iprobe 0 none tagAge (some 1), .recv 0 1 tagAge, .isend 1 0 tagAge, .iprobe 0 none tagAge (some 1),
-      .recv 0 1 tagAge, .iprobe 0 none tagAge none, .isend 0 1 tagExit, .barrierEnter 0,
-      .iprobe 1 (some 0) tagExit (some 0), .recv 1 0 tagExit, .barrierEnter 1, .barrierLeave 0,
-      .iprobe 0 none tagAge none, .barrierLeave 1]
-    (run.foldl (fun o a => o.bind (step · a)) (some s0)).map (fun s => (isFinal s, s.ages, s.mbox, s.exitQ))
-      = some (true, [1, 1], [], [0, 0]) := by decide
+    let run := [Action.isend 1 0 tagAge, .recv 0 1 tagAge, .iprobe 1 (some 0) tagExit none, .evolve 1 1, .evolve 0 1,
+      .isend 1 0 tagAge, .iprobe 0 none tagAge (some 1), .recv 0 1 tagAge, .iprobe 0 none tagAge none,
+      .isend 0 1 tagExit, .barrierEnter 0, .iprobe 1 (some 0) tagExit (some 0), .recv 1 0 tagExit,
+      .barrierEnter 1, .barrierLeave 0, .iprobe 0 none tagAge none, .barrierLeave 1]
+    (run.foldl (fun o a => o.bind (step · a)) (some s0)).map (fun s => (isFinal s, s.ages, s.mbox, s.exitQ, s.goal))
+      = some (true, [1, 1], [], [0, 0], 2) := by decide
+
+/-- three ranks with different start ages `[5, 1, 2]`, one generation requested: rank 0 collects one age
+of each helper (`target_total_age = 8 + 1 * 3 = 11`), every island evolves one slice, and the call returns
+with `advanceOk`: the ages `[6, 2, 3]` differ from the start ages and their sum has grown by `R * n = 3` -/
+example :
+    let s0 := initial 3 1 1 [5, 1, 2]
+    let run := [Action.isend 1 0 tagAge, .isend 2 0 tagAge, .recv 0 1 tagAge, .recv 0 2 tagAge, .evolve 0 1,
+      .iprobe 1 (some 0) tagExit none, .evolve 1 1, .isend 1 0 tagAge,
+      .iprobe 2 (some 0) tagExit none, .evolve 2 1, .isend 2 0 tagAge,
+      .iprobe 0 none tagAge (some 1), .recv 0 1 tagAge, .iprobe 0 none tagAge (some 2), .recv 0 2 tagAge,
+      .iprobe 0 none tagAge none, .isend 0 1 tagExit, .isend 0 2 tagExit, .barrierEnter 0,
+      .iprobe 1 (some 0) tagExit (some 0), .recv 1 0 tagExit, .barrierEnter 1,
+      .iprobe 2 (some 0) tagExit (some 0), .recv 2 0 tagExit, .barrierEnter 2,
+      .barrierLeave 0, .iprobe 0 none tagAge none, .barrierLeave 1, .barrierLeave 2]
+    (run.foldl (fun o a => o.bind (step · a)) (some s0)).map
+        (fun s => (isFinal s && advanceOk s && agesOk s && (s.ages != s.ages0), s.ages, s.ages0, s.goal))
+      = some (true, [6, 2, 3], [5, 1, 2], 11) := by decide
+
+/-- the collecting receive blocks until the helper has sent its first age; afterwards it is enabled -/
+example :
+    let s0 := initial 2 1 1 [0, 0]
+    (step s0 (.recv 0 1 tagAge)).isNone = true ∧ enabled s0 0 = false ∧ enabled s0 1 = true ∧
+    ((step s0 (.isend 1 0 tagAge)).map fun s => enabled s 0) = some true := by decide
 
 /-- a blocked operation is not enabled: rank 0 cannot leave the barrier alone -/
 example :
-    let s0 := initial 1 1 0 [0] 0
+    let s0 := initial 1 1 0 [0]
     (step s0 (.barrierLeave 0)).isNone = true ∧ (step s0 (.barrierEnter 0)).isSome = true := by decide
 
 end C12
